@@ -247,3 +247,21 @@ def event_counts(G, S, m):
             n[ev] += 1
             n["LOSS"] += losses(S, m[v], m[a], m[b], ev)
     return n
+
+
+def random_rec(rng, G, S, leafmap, high_p=0.5):
+    """A random valid reconciliation built bottom-up (each node: uniform among the species that give a valid
+    event for its children, or with probability 1-high_p the lowest such species)."""
+    m = {}
+    for v in reversed(G.nodes):
+        if not G.children[v]:
+            m[v] = leafmap[v]
+            continue
+        a, b = G.children[v]
+        cands = [s for s in S.nodes if event(S, s, m[a], m[b]) != "INV"]
+        if rng.random() < high_p:
+            m[v] = rng.choice(cands)
+        else:
+            deepest = max(S.depth[s] for s in cands)
+            m[v] = rng.choice([s for s in cands if S.depth[s] == deepest])
+    return m
